@@ -66,7 +66,8 @@ impl<'a, W: Write<Error = E>, E: Error> Writer<'a, W, E> {
     }
 
     pub fn writeln_str(&mut self, text: &str) -> Result<(), E> {
-        self.writer.write_str(text)?;
+        // text can contain line feeds, they have to be converted as in write_str
+        self.write_str(text)?;
         self.writer.write_str(codes::CRLF)?;
         self.dirty = false;
         Ok(())
